@@ -172,18 +172,23 @@ impl TopicStorage for FileTopicStorage {
                 match partition.load(partition_state).await {
                     Ok(_) => {
                         loaded_partitions.lock().await.push(partition);
+                        Ok(())
                     }
                     Err(error) => {
                         error!(
                             "Failed to load partition with ID: {} for stream with ID: {stream_id} and topic with ID: {topic_id}. Error: {error}",
                             partition.partition_id);
+                        Err(error)
                     }
                 }
             });
             load_partitions.push(load_partition);
         }
 
-        join_all(load_partitions).await;
+        for load_result in join_all(load_partitions).await {
+            // A partition that cannot be loaded must not silently disappear from its topic.
+            load_result.map_err(|_| IggyError::CannotReadPartitions)??;
+        }
         for partition in loaded_partitions.lock().await.drain(..) {
             topic
                 .partitions
